@@ -122,7 +122,7 @@ MOTHER_SETS = [
 ]
 COUPLINGS = [("2", "1", "0", "2", "0", "0"), ("0", "0.5", "0.1", "0", "1.5", "0.2"), ("0", "-0.3", "0.0", "2", "0.7", "0.0"),
              ("2", "2.5e-1", "1e-3", "0", "-3.14159", ".01")]
-R_READ = [len(MOTHER_SETS), 4, 3, 3, 2, 3]
+R_READ = [len(MOTHER_SETS), 4, 3, 3, 2, 3, 2]
 N_READ = prod(R_READ)
 
 
@@ -134,7 +134,7 @@ def pdgshow(t):
 
 
 def body_read(sel: int) -> bool:
-    ms, nk1, na1, opt, layout, tabs = digits(sel, R_READ)
+    ms, nk1, na1, opt, layout, tabs, history = digits(sel, R_READ)
     mothers = MOTHER_SETS[ms]
     k1 = K1_ALTS[:nk1]
     a1 = A1_ALTS[:na1]
@@ -165,6 +165,10 @@ def body_read(sel: int) -> bool:
     AmplitudeChain.all_particles = set()
     AmplitudeChain.final_particles = set()
     try:
+        if history:
+            # an earlier read in the same process of a text in which the resonances have no decay lines of their own: what a text
+            # states does not depend on it (the class-level sets are NOT reset in between)
+            AmplitudeChain.read_ampgen(text="EventType D0 K- pi+ pi+ pi-\n" + "\n".join(lines_txt[:len(mothers)]) + "\n")
         lines, pars, cons, states = AmplitudeChain.read_ampgen(text=text)
     except Exception as e:
         AmplitudeChain.cartesian = False
